@@ -165,7 +165,9 @@ def make_case(rng, n_max=24, variant=None, traj=None):
     traj = traj or rng.choice(['cartesian', 'cartesian', 'ismrmrd3', 'ismrmrd2', 'radial', 'rpe', 'user'])
     return {'acqs': allacq, 'order': order, 'order2': order2, 'n_k0': n_k0, 'receiver_channels': receiver_channels, 'traj': traj,
             'k1_center': rng.randint(0, 5), 'k2_center': rng.randint(0, 3), 'variant': variant,
-            'angle_num': rng.choice([1, 3, 5, 7]), 'seed': rng.randrange(10 ** 6)}
+            'angle_num': rng.choice([1, 3, 5, 7]), 'seed': rng.randrange(10 ** 6),
+            # unsigned 32 bit header fields (time stamps, measurement uid) anywhere in their range, not only below 2**31
+            'stamp_offset': rng.choice([0, 0, 2 ** 31 - 2, 2 ** 31 + 12345, 2 ** 32 - 2 ** 18])}
 
 
 def gen_load(rng, tier):
@@ -190,7 +192,11 @@ def gen_sunflower(rng, tier):
         k2v = sorted({a['labels']['k2'] for a in img})
         for a in c['acqs']:                      # the calculator assumes k2 = 0 .. n-1
             a['labels']['k2'] = k2v.index(a['labels']['k2']) if a['labels'].get('k2') in k2v else 0
-        if len(expected_kept(c)) >= 2:
+        kept = expected_kept(c)
+        kept_k2 = sorted({a['labels'].get('k2', 0) for a in kept})
+        # the documented domain of the calculator is k2 = 0 .. n-1 among the readouts that are actually loaded (when the coil-count selection
+        # keeps the other-coil acquisitions instead of the image ones, their k2 labels must satisfy it too)
+        if len(kept) >= 2 and kept_k2 == list(range(len(kept_k2))):
             cases.append(c)
     return cases
 
@@ -290,9 +296,10 @@ def observe(kd, c):
         chk('idx', lab == label_vec(a))
         chk('idx.segment', int(info.idx.segment[p]) == a.get('segment', 0))
         chk('idx.user5', int(info.idx.user5[p]) == a['labels'].get('user5', 0))
-        chk('acquisition_time_stamp', int(info.acquisition_time_stamp[p][0]) == aid)
-        chk('measurement_uid', int(info.measurement_uid[p][0]) == aid)
-        chk('physiology_time_stamp', info.physiology_time_stamp[p].tolist() == [aid, aid + 1, aid + 2])
+        off = c.get('stamp_offset', 0)
+        chk('acquisition_time_stamp', int(info.acquisition_time_stamp[p][0]) == aid + off)
+        chk('measurement_uid', int(info.measurement_uid[p][0]) == aid + off)
+        chk('physiology_time_stamp', info.physiology_time_stamp[p].tolist() == [aid + off, aid + 1 + off, aid + 2 + off])
         chk('flags', int(info.flags[p][0]) == a['flags'])
         chk('center_sample', int(info.center_sample[p][0]) == a['center'])
         chk('number_of_samples', int(info.number_of_samples[p][0]) == a.get('n_k0', c['n_k0']))
@@ -317,7 +324,7 @@ def observe(kd, c):
 def _load(c, order, keep_kinds=('image', 'rejected', 'othercoil')):
     from mrpro.data import KData
     fn = os.path.join(_tmpdir(), f'c14_{os.getpid()}.h5')
-    acqs = [c['acqs'][i] for i in order if c['acqs'][i]['kind'] in keep_kinds]
+    acqs = [dict(c['acqs'][i], stamp_offset=c.get('stamp_offset', 0)) for i in order if c['acqs'][i]['kind'] in keep_kinds]
     W.write_file(fn, acqs, n_k0=c['n_k0'], header_xml=_header_xml(c), traj_dims=2 if c['traj'] == 'ismrmrd2' else 3)
     try:
         kd = KData.from_file(fn, _trajectory_arg(c))
